@@ -7,6 +7,8 @@ import (
 	"encoding/json"
 	"fmt"
 	"math/big"
+	"os"
+	"path/filepath"
 	"sort"
 	"strconv"
 	"strings"
@@ -25,6 +27,7 @@ import (
 //	special <matches hexlist> <keys hexlist> <values hexlist>      (cmd.buildSpecialKeyJson)
 //
 // answer:  ok <hex text> v=<0|1> m=<members>
+//
 //	    v: the text is one valid JSON value (encoding/json on this side, the RFC 8259 parser of
 //	       Rare.Spec.C16 on the Lean side)
 //	    m: decoded members, hexlist of key,value,key,value...; value = tag byte + payload
@@ -541,6 +544,28 @@ func c16Stats(cases []string) map[string]int {
 	return st
 }
 
+// c16Corpus loads /verif/corpus/C16/*.case (located relative to this executable,
+// work/bin/corr_C16): past failing inputs always run first.
+func c16Corpus() []string {
+	exe, err := os.Executable()
+	if err != nil {
+		return nil
+	}
+	files, _ := filepath.Glob(filepath.Join(filepath.Dir(exe), "..", "..", "corpus", "C16", "*.case"))
+	sort.Strings(files)
+	var out []string
+	for _, f := range files {
+		b, _ := os.ReadFile(f)
+		for _, l := range strings.Split(string(b), "\n") {
+			l = strings.TrimSpace(l)
+			if l != "" && !strings.HasPrefix(l, "#") {
+				out = append(out, strings.TrimPrefix(l, "C16 "))
+			}
+		}
+	}
+	return out
+}
+
 func init() {
-	Register("C16", &Prop{Gen: c16Gen, Run: c16Run, Stats: c16Stats})
+	Register("C16", &Prop{Gen: c16Gen, Run: c16Run, Stats: c16Stats, Corpus: c16Corpus()})
 }
